@@ -19,6 +19,7 @@ type vcfg struct {
 	immutable bool
 	primary   string
 	gc        bool
+	sync      bool // SyncOnFlush
 }
 
 // symCfg draws a configuration: file-size limits symbolic in [1,2^30], bit size by
@@ -76,7 +77,7 @@ func openCfg(dir string, c vcfg) (*Store, error) {
 		gci = 1 << 40
 	}
 	return OpenStore(context.Background(), c.primary, filepath.Join(dir, "d"), filepath.Join(dir, "i"), c.immutable,
-		IndexBitSize(c.bits), IndexFileSize(c.ifs), PrimaryFileSize(c.pfs), GCIntervalNs(gci), GCTimeLimitNs(0), SyncIntervalNs(1<<40))
+		IndexBitSize(c.bits), IndexFileSize(c.ifs), PrimaryFileSize(c.pfs), GCIntervalNs(gci), GCTimeLimitNs(0), SyncIntervalNs(1<<40), SyncOnFlush(c.sync))
 }
 
 // mkKeys returns K well-formed multihash keys (identity code, L-byte symbolic digest),
@@ -89,6 +90,10 @@ func mkKeys(K, L int, bits uint8) [][]byte {
 	mask := uint32(1)<<bits - 1
 	// two adjacent bucket numbers (adjacency matters to whole-index iteration)
 	bvals := []uint32{0x5A & mask, 0x5B & mask}
+	if vrt.Param("edgebuckets", 0) != 0 {
+		// the last and the first bucket of the table, and one in the middle
+		bvals = []uint32{mask, 0, 0x5A & mask}
+	}
 	for i := range keys {
 		if vrt.Param("concretekeys", 0) != 0 {
 			// fixed digests sharing bucket and first stored byte: for runs whose subject is
